@@ -46,7 +46,7 @@ First(q, P(_)) == LET ks == {k \in 1..Len(q) : P(q[k])} IN
 
 TypeOK == /\ fresh \in 1..(MaxTok + 1)
           /\ \A u \in User : \A n \in Range(fwd[u]) :
-                n.tok \in 1..(fresh - 1) /\ n.fmt \in Fmts /\ n.sp \in SPq /\ n.spid \in SPIDs \cup {""}
+                n.tok \in 1..(fresh - 1) /\ n.fmt \in Fmts /\ n.sp \in SPq \cup {""} /\ n.spid \in SPIDs \cup {""}
           /\ \A t \in Tokens : rev[t] \in User \cup {NoUser}
 
 Init == /\ fwd = [u \in User |-> <<>>]
@@ -143,7 +143,8 @@ Next ==
     \/ \E u \in User, s \in SPq \cup {""}, f \in Fmts \cup {""} : FindNameid(u, s, f)
     \/ \E n \in Current : RemoveRemote(n)
     \/ \E n \in Current, p \in SPIDs \cup {""} : Manage(n, p)
-    \/ \E n \in Current, f \in Fmts, s \in SPq, a \in BOOLEAN : Mapping(n, f, s, a)
+    \* "" = a NameIDPolicy without SPNameQualifier: matches (or creates) an identifier that has none
+    \/ \E n \in Current, f \in Fmts, s \in SPq \cup {""}, a \in BOOLEAN : Mapping(n, f, s, a)
     \/ \E u \in User : RemoveLocalFails(u) \/ RemoveLocalOk(u)
     \/ \E o \in {"RemoveRemote", "Manage", "Mapping", "FindLocalUnknown"} : Unknown(o)
 
